@@ -1154,6 +1154,8 @@ class Interp:
             if item in container.items:
                 return True
             return sym.op("in", item, container.base)
+        if is_sym(item) and isinstance(container, dict) and item in container:
+            return True
         if is_sym(container) or is_sym(item):
             if not is_sym(container) and isinstance(container, (tuple, list, set, frozenset, dict)) and is_sym(item):
                 if sym.kind(item) == "int" and all(isinstance(x, int) for x in container):
@@ -1235,6 +1237,8 @@ class Interp:
             raise Unsupported(f"subscript of class {obj!r}")
         if isinstance(obj, Ext):
             return Ext(obj.dotted + "[]")
+        if is_sym(key) and isinstance(obj, dict) and key in obj:
+            return obj[key]
         if is_sym(key):
             if isinstance(obj, (list, tuple)) and sym.kind(key) in ("int", "bool"):
                 return sym.op("select", tuple(obj), key)
